@@ -15,11 +15,6 @@ of the 2-D arrays `arr_peak_real` / `arr_peak`); the genuinely batch-level parts
 batch – are modelled as such.  `rowFeatures` is the same pipeline for one waveform; that `batch` is
 `rowFeatures` on every waveform is a theorem (`Lemmas/FeaturesBatch.lean`), not the definition.
 
-The model follows the code as it is, including what is reported as finding F21: in the swap branch of
-`find_tip_trough` the batch array `arr_peak` receives the REAL (un-inverted) trace and only a private copy
-is re-inverted, so when the swapped peak is positive `find_tip`, `half_peak_point` and `recovery_point`
-read a trace of the wrong polarity (see `swapRow`).
-
 Errors of the real code that are modelled:
   ValueError  zero-size array to reduction (no samples / no channels)            → `Err.zeroSize`
   ValueError  "All-NaN slice encountered" (np.nanargmax, peak on sample 0)       → `Err.allNaN`
@@ -164,16 +159,15 @@ def swapCond (s : St) : Bool := decide (0 < s.pv) && (!decide (s.trv = 0) && dec
 
 /-- The body of `if len(df_index) > 0:` for one selected row.
     df_rows["peak_val"] = df_rows["trough_val"]; df_rows["peak_time_idx"] = df_rows["trough_time_idx"]
-    arr_peak_rows = arr_peak_real[df_index, :]          -- a copy (fancy indexing)
-    arr_peak[df_index, :] = arr_peak_rows               -- the batch array now holds the REAL trace for this row
-    arr_peak_rows, df_rows = invert_peak_waveform(arr_peak_rows, df_rows)   -- inverts the copy only
+    arr_peak_rows = arr_peak_real[df_index, :]          -- a copy (fancy indexing) of the REAL traces
+    arr_peak_rows, df_rows = invert_peak_waveform(arr_peak_rows, df_rows)   -- inverted by the NEW peak's sign
+    arr_peak[df_index, :] = arr_peak_rows               -- the batch array holds the re-inverted trace for this row
     df_rows = find_trough(arr_peak_rows, df_rows); df_rows = peak_to_trough_ratio(df_rows)
-The returned state carries `arr := real`: that is what `arr_peak` holds afterwards and what `find_tip`,
-`half_peak_point` and `recovery_point` then read. -/
+The returned state carries `arr := invertRow real trough_val`: that is what `arr_peak` holds afterwards and what
+`find_tip`, `half_peak_point` and `recovery_point` then read. -/
 def swapRow (s : St) : Except Err St := do
   let s1 : St := { s with pv := s.trv, p := s.tr, sgn := invertSign s.trv, arr := invertRow s.real s.trv }
-  let s2 ← findTroughRow s1
-  pure { s2 with arr := s.real }
+  findTroughRow s1
 
 /-- `df_index`: positions of the rows that satisfy the swap condition. -/
 def condIdx (ss : List St) : List Nat :=
@@ -182,7 +176,7 @@ def condIdx (ss : List St) : List Nat :=
 /-- `df.iloc[df_index]`, `arr_peak_real[df_index, :]` -/
 def select (ss : List St) (ix : List Nat) : Except Err (List St) := ix.mapM (idx ss)
 
-/-- `df.loc[df_index] = df_rows`; `arr_peak[df_index, :] = arr_peak_rows` -/
+/-- `df.loc[df_index] = df_rows`; `arr_peak[df_index, :] = arr_peak_rows` (after the re-inversion) -/
 def writeBack (ss : List St) (ix : List Nat) (rows : List St) : List St :=
   (ix.zip rows).foldl (fun acc ir => acc.set ir.1 ir.2) ss
 
@@ -271,7 +265,7 @@ def swapBlock (s1 : List St) : Except Err (List St) :=
   if dfIndex.isEmpty then pure s1 else do
     let rows ← select s1 dfIndex          -- df.iloc[df_index], arr_peak_real[df_index, :]
     let rows' ← rows.mapM swapRow
-    pure (writeBack s1 dfIndex rows')     -- df.loc[df_index] = df_rows, arr_peak[df_index, :] = arr_peak_rows
+    pure (writeBack s1 dfIndex rows')     -- df.loc[df_index] = df_rows, arr_peak[df_index, :] = arr_peak_rows (inverted)
 
 /-- `compute_spike_features(arr_in, fs, recovery_duration_ms)` on a batch, with
 `k = int(round(recovery_duration_ms * fs / 1000))` and `T = arr_in.shape[1]`.
